@@ -957,7 +957,15 @@ impl Parser {
                 if next_tag != TokenTag::IntLit && next_tag != TokenTag::FloatLit {
                     PrefixOp::Minus
                 } else {
-                    return None;
+                    // `-2` is read as one negative literal, but only when the operator after
+                    // it does not bind tighter than unary minus: `-2 % 3` must group like
+                    // `-x % 3`, i.e. as `-(2 % 3)`.
+                    match self.peek_token(2).tag() {
+                        TokenTag::Star | TokenTag::Slash | TokenTag::Mod | TokenTag::Caret => {
+                            PrefixOp::Minus
+                        }
+                        _ => return None,
+                    }
                 }
             }
             TokenTag::Not => PrefixOp::Not,
